@@ -643,6 +643,35 @@ fn mutation_histories(ctx: &Ctx) {
     ctx.judge_all(cases, Via::Fast, None);
 }
 
+// `===` is true exactly for the same container: two evaluations of anything
+// that builds a container give two containers, also when both are empty.
+fn fresh_identity_cases(ctx: &Ctx) -> Vec<(Case, bool)> {
+    let pre = "fn rest_of(x, ..rest) {\n    return rest\n}\nfn lit() {\n    return []\n}\nfn olit() {\n    return {}\n}\nfn node(name, ..children) {\n    return {\"name\": name, \"children\": children}\n}\nsrc := [1]\nosrc := {\"a\": 1}\n";
+    // (first, second): two expressions building equal containers.
+    let makers = [
+        ("rest_of(1)", "rest_of(2)"), ("rest_of(1, 5)", "rest_of(2, 5)"), ("lit()", "lit()"), ("olit()", "olit()"), ("[]", "[]"), ("{}", "{}"),
+        ("src[1:]", "src[1:]"), ("src[:0]", "src[1:1]"), ("[] + []", "[] + []"), ("[src[1:]..]", "[src[1:]..]"), ("(0 .. 0)", "(0 .. 0)"), ("(3 .. 3)", "(0 .. 0)"),
+        ("node(\"a\").children", "node(\"b\").children"), ("{osrc..}", "{osrc..}"), ("src[:]", "src[:]"), ("[src..]", "[src..]"), ("rest_of(src..)", "rest_of(src..)"),
+    ];
+    let mut out = vec![];
+    for (a, b) in makers {
+        let src = format!("{pre}p := {a}\nq := {b}\nprint([p === q, p !== q, q === p, p === p, p == q])\n");
+        ctx.label("two evaluations of a building expression");
+        out.push((Case{property: "C10".into(), kind: "fresh_identity".into(), srcs: vec![src.into_bytes()], pred: Pred::Expect(Expect::ok(b"[\n    false,\n    true,\n    false,\n    true,\n    true,\n]\n".to_vec())), note: format!("{a} against {b}")}, true));
+    }
+    // Through destructuring.
+    for (decl, a, b) in [
+        ("[x1, ..p] := [1]\n[x2, ..q] := [2]\n", "p", "q"), ("[..p] := []\n[..q] := []\n", "p", "q"), ("{..p} := {}\n{..q} := {}\n", "p", "q"),
+        ("{a, ..p} := osrc\n{a: a2, ..q} := osrc\n".replace("a: a2", "\"a\": a2").as_str(), "p", "q"), ("[x1, ..p] := [1]\nq := rest_of(1)\n", "p", "q"),
+        ("fn two(..r) {\n    [..s] := r\n    return [r, s]\n}\n[p, q] := two()\n", "p", "q"),
+    ] {
+        let src = format!("{pre}{decl}print([{a} === {b}, {a} !== {b}, {b} === {a}, {a} == {b}])\n");
+        ctx.label("two evaluations of a building expression");
+        out.push((Case{property: "C10".into(), kind: "fresh_identity".into(), srcs: vec![src.into_bytes()], pred: Pred::Expect(Expect::ok(b"[\n    false,\n    true,\n    false,\n    true,\n]\n".to_vec())), note: format!("collected rests: {}", decl.replace('\n', "; "))}, true));
+    }
+    out
+}
+
 // Values far deeper than the pool (chains of 100..400 containers built in a
 // loop) and self-containing operands compared with finite ones.
 fn deep_and_cyclic(ctx: &Ctx) {
@@ -714,6 +743,7 @@ pub fn run(ctx: &Ctx) {
     ctx.mark_exhaustive(&format!("all ordered pairs of the {}-value pool x 4 operators", pool.entries.len()));
     mutation_histories(ctx);
     deep_and_cyclic(ctx);
+    ctx.judge_all(fresh_identity_cases(ctx), Via::Cli, None);
     triples_check(ctx, &pool, ctx.n(20_000, 1_000_000) as usize);
     random_check(ctx, ctx.n(3_000, 2_000_000));
 }
